@@ -108,6 +108,6 @@ func TestC16(t *testing.T) {
 		}
 		return c
 	}
-	core.Rapid(r, "admission", r.Pick(3000, 100000), gen, wrap)
+	core.Rapid(r, "admission", r.Pick(3000, 600000), gen, wrap)
 	_ = fmt.Sprint
 }
